@@ -579,8 +579,10 @@ def gen_cases(rng, tier):
     for N in (-1, 0, 1, 2):
         for op in b2:
             add("ring", N=N, defect=0.3, open=op, n_cover=rng.choice([1, 2]))
-    for n in range(0, R + 4):
+    for n in range(1, R + 4):
         for lp in b2:
+            if lp and n < 2:
+                continue   # a closed chain on one point is the self-loop (0,0), which RawMeshData.prepare discards
             dim = rng.choice([2, 3])
             add("chain_of_vertices", vertices={"arr": [[dy(rng) for _ in range(dim)] for _ in range(n)]}, loop=lp)
     for n in range(1, R + 2):
@@ -625,7 +627,7 @@ def gen_outside(rng, tier):
     add("spherify_vertices", points={"cloud": [[dy(rng) for _ in range(3)] for _ in range(3)]}, radius=0.25, n_subdiv=1)
     add("spherify_vertices", points={"cloud": [[dy(rng) for _ in range(3)] for _ in range(2)]}, radius=0.5, n_subdiv=0)
     add("cylindrify_edges", mesh={"polyline": {"V": [[0, 0, 0], [1, 0, 0], [1, 1, 0], [1, 1, 2]], "E": [[0, 1], [1, 2], [2, 3]]}}, radius=0.05, N=5)
-    add("cylindrify_edges", mesh={"polyline": {"V": [[0, 0, 0], [1, 0, 0]], "E": []}}, radius=0.05, N=5)
+    add("cylindrify_edges", mesh={"polyline": {"V": [[0, 0, 0], [1, 0, 0]], "E": [[0, 1]]}}, radius=0.1, N=3)
     return cs
 
 
